@@ -164,6 +164,29 @@ func init() {
 			if os.Getenv("VERIF_DUMP") != "" {
 				for _, label := range []string{"php5", "php7"} {
 					f, _ := c.flow(c.Repo, label)
+					for nm, sh := range c.shapes[c.Repo+"|"+label] {
+						if sh.MayNil || sh.Unknown {
+							fmt.Printf("  shape[%s] %s maynil=%v unknown=%v\n", label, nm, sh.MayNil, sh.Unknown)
+						}
+					}
+					pr := f.TreePresence(c.shapes[c.Repo+"|"+label])
+					var ts []string
+					for t := range pr {
+						ts = append(ts, t)
+					}
+					sort.Strings(ts)
+					for _, t := range ts {
+						var al, ne []string
+						for k := range pr[t].Always {
+							al = append(al, k)
+						}
+						for k := range pr[t].NonEmpty {
+							ne = append(ne, k)
+						}
+						sort.Strings(al)
+						sort.Strings(ne)
+						fmt.Printf("  presence[%s] %s (%d sources): always %s | non-empty %s\n", label, t, pr[t].Sources, strings.Join(al, ","), strings.Join(ne, ","))
+					}
 					sk := f.SlotKinds()
 					var ks []string
 					for k := range sk {
